@@ -356,6 +356,16 @@ def codec_variants(case, encoded):
     return out
 
 
+MAX_SAFE_WORD_SIZE = 8
+
+
+def decodable_in_practice(b: bytes) -> bool:
+    """decode_circuit loops `inputs_count` times with inputs_count < 2**word_size read from the header: a header
+    byte above 8 can make the implementation (and the model) allocate without bound, so such byte strings are
+    never handed to either (every generated circuit has far fewer than 2**8 gates)"""
+    return not b or b[0] <= MAX_SAFE_WORD_SIZE
+
+
 def run_circuit(case):
     from cirbo.circuits_db.circuits_encoding import decode_circuit, encode_circuit
     c = ct.build_circuit(case['circuit'])
@@ -366,6 +376,8 @@ def run_circuit(case):
     streams = codec_variants(case, enc[1] if enc[0] == 'ok' else None)
     if enc[0] == 'ok':
         streams = [enc[1]] + streams
+    if not all(decodable_in_practice(s) for s in streams):
+        raise AssertionError(f'encode_circuit produced a header announcing word size {streams[0][0]}')
     results = [call(lambda: decode_circuit(s), ct.dump_circuit) for s in streams]
     decs = ct.lst(f'({bl_(s)}, {res(r, ct.circuit)})' for s, r in zip(streams, results))
     tags = [('encode_circuit', enc[1] if enc[0] == 'err' else 'ok')]
@@ -392,6 +404,8 @@ def run_db(case):
     stream = io.BytesIO()
     saved = call(lambda: (db.save(stream), stream.getvalue())[1])
     opened, gets = ('err', 'UNMODELLED_not_saved'), []
+    if saved[0] == 'ok' and not all(decodable_in_practice(v) for v in db._dict.values()):
+        raise AssertionError('add_circuit stored bytes whose header announces a huge word size')
     if saved[0] == 'ok':
         db2 = CircuitsDatabase(io.BytesIO(saved[1]))
         opened = call(lambda: (db2.open(), dict(db2._dict))[1], dict_entries)
@@ -473,6 +487,9 @@ def oracle_circuit(dump):
         if fmt:
             return f'format-circuit-rejected: a circuit inside the format is refused by encode_circuit ({n}: {e})'
         return None
+    if not decodable_in_practice(data):
+        return (f'encoded-bytes-do-not-decode: encode_circuit returned {data.hex()}, whose header announces word size '
+                f'{data[0]} for a circuit of {len(dump["gates"])} gates (not handed to decode_circuit)')
     try:
         d = decode_circuit(data)
     except Exception as e:  # noqa: BLE001
@@ -604,6 +621,8 @@ def oracle_db(case):
         msg = oracle_circuit(dump)
         if msg:
             return msg
+        if not decodable_in_practice(db2._dict.get(lab, b'')):
+            return f'encoded-bytes-do-not-decode: stored bytes of {lab!r} announce a huge word size'
         try:
             got = db2.get_by_label(lab)
         except Exception as e:  # noqa: BLE001
